@@ -438,9 +438,33 @@ def run_io_types(rep, tier, rng):
     class M(pa.DataFrameModel):
         a: int = pa.Field(coerce=True)
 
-    for d1, d2, dout, opts, kw in itertools.product(("good", "bad"), ("good", "bad"), ("good", "bad"), OPTS[:2],
+    from pandera.api.pandas.container import DataFrameSchema as PDS
+    for d1, d2, dout, opts, kw in itertools.product(("good", "bad"), ("good", "bad"), ("good", "bad"), OPTS,
                                                     (False, True)):
         c = {"dec": "check_io", "d1": d1, "d2": d2, "out": dout, "opts": opts, "kw": kw}
+        if d1 == d2 == dout == "good":
+            # every validate call the decorator makes (two inputs, the output) carries the options it was given
+            VLOG.clear()
+            mine = good.copy()
+            seen = []
+
+            @check_io(df1=S, df2=S, out=S, **opts)
+            def h(df1, n, df2, m=3):
+                seen.append(df1)
+                return good.copy()
+            with mock.patch.object(PDS, "validate", recording_validate(PDS.validate)), warnings.catch_warnings():
+                warnings.simplefilter("ignore")
+                try:
+                    h(mine, 1, good.copy())
+                except Exception as e:  # noqa: BLE001
+                    rep.property_failure(c, f"check_io with {opts} raised {type(e).__name__} on accepted frames")
+            want_opts = {"head": None, "tail": None, "sample": None, "random_state": None, "lazy": False, "inplace": False}
+            want_opts.update(opts)
+            rep.evaluations += 1
+            if len(VLOG) != 3 or any(v != want_opts for v in VLOG):
+                rep.property_failure(c, f"check_io was given {want_opts}; its validate calls received {list(VLOG)}")
+            elif opts.get("inplace") and seen and (seen[0] is not mine or str(mine["a"].dtype) != "int64"):
+                rep.property_failure(c, "check_io(inplace=True): the body did not receive the caller's own (parsed) frame")
         ran = []
 
         @check_io(df1=S, df2=S, out=S, **opts)
@@ -508,8 +532,55 @@ def run_io_types(rep, tier, rng):
             rep.property_failure(c, f"check_types: a rejected frame did not raise a schema error: {impl}")
         elif impl[0] == "schemaError" and impl[1] != ("SchemaErrors" if opts.get("lazy") else "SchemaError"):
             rep.property_failure(c, f"check_types: lazy={opts.get('lazy', False)} raised {impl[1]}")
+    run_types_starkwargs(rep)
     run_types_nonframes(rep)
     run_types_prevalidated(rep)
+
+
+def run_types_starkwargs(rep):
+    """frames handed over through an annotated `**kwargs` (and `*args`) bundle are validated like named parameters:
+    plain function, method, sync / async, several frames in the bundle"""
+    import pandera as pa
+    from pandera import check_types
+    from pandera.typing import DataFrame
+    good, bad = frames()
+
+    class M(pa.DataFrameModel):
+        a: int = pa.Field(coerce=True)
+
+    for kind, is_async, bundle, opts in itertools.product(("plain", "method"), (False, True),
+                                                          (("good",), ("bad",), ("good", "good"), ("good", "bad"), ()),
+                                                          OPTS[:2]):
+        c = {"dec": "check_types", "starkwargs": list(bundle), "kind": kind, "async": is_async, "opts": opts}
+        ran = []
+        d = "async def" if is_async else "def"
+        if kind == "plain":
+            src = (f"@check_types(**opts)\n{d} g(n: int, **extra: DataFrame[M]):\n"
+                   "    ran.append({k: tag(v) for k, v in extra.items()})\n    return n\n")
+        else:
+            src = (f"class K:\n    @check_types(**opts)\n    {d} g(self, n: int, **extra: DataFrame[M]):\n"
+                   "        ran.append({k: tag(v) for k, v in extra.items()})\n        return n\n")
+        ns = {"check_types": check_types, "DataFrame": DataFrame, "M": M, "ran": ran, "tag": tag, "opts": opts}
+        exec(compile(src, "<c17-starkw>", "exec", dont_inherit=True), ns)  # noqa: S102
+        g = ns["g"] if kind == "plain" else ns["K"]().g
+        kwargs = {f"x{i}": (good if b == "good" else bad).copy() for i, b in enumerate(bundle)}
+        with warnings.catch_warnings():
+            warnings.simplefilter("ignore")
+            try:
+                r = run_sync(g(1, **kwargs))
+                impl = ("ret", r)
+            except Exception as e:  # noqa: BLE001
+                impl = (exc_kind(e), type(e).__name__)
+        rep.case(c)
+        rep.evaluations += 1
+        rep.count("check_types-starkwargs:" + impl[0])
+        ok = all(b == "good" for b in bundle)
+        if bool(ran) != ok:
+            rep.property_failure(c, f"check_types: body ran = {bool(ran)} with frames {list(bundle)} passed through **kwargs ({impl})")
+        elif ran and ran[0] != {f"x{i}": PARSED for i in range(len(bundle))}:
+            rep.property_failure(c, f"check_types: the body received {ran[0]} through **kwargs (parsed frames expected)")
+        elif not ok and impl[0] != "schemaError":
+            rep.property_failure(c, f"check_types: a rejected frame in **kwargs did not raise a schema error: {impl}")
 
 
 def run_types_nonframes(rep):
